@@ -1,83 +1,34 @@
 /-
-C03 — mesh hill climbing (`hill_climb_mesh_extreme`, `MeshHillClimbingSupportFunction`):
-termination with fuel = number of vertices, local optimality for every start index, global
-optimality under `Unimodal`, the KeyError precondition, history independence.
+C03 — mesh hill climbing (`hill_climb_mesh_extreme`, `MeshHillClimbingSupportFunction`), code
+after repair e900ae9 (one computed projection per vertex, `projection - best_projection > eps`):
+
+* termination in ANY arithmetic (`hillClimbF_terminates_anyArith`): for every scalar type and
+  every instance of `+ - * <` whatsoever, if the acceptance test is contained in a strict order
+  on vertex indices the climb accepts at most #vertices − 1 moves and never hits its fuel;
+  instances: any `<` that is irreflexive and transitive with `τ < a - b → b < a`
+  (`hillClimbF_terminates_strictOrder`, what IEEE arithmetic gives, NaN included), ℝ;
+* at ℝ: local optimality for every start index, global optimality under `Unimodal`, the
+  KeyError precondition, history independence.
+The defect of the code before the repair is documented in D3/Proofs/SupportMeshCycle.lean.
 -/
 import D3.Proofs.SupportHull
 import Mathlib.Data.Finset.Card
 import Mathlib.Order.Interval.Finset.Nat
 
+set_option linter.unusedSectionVars false
+
 namespace D3
 namespace Support
 
-/-- projection `d · vertices[i]` (0 outside the array; never used there) -/
-noncomputable def proj (d : V) (vs : Array V) (i : Nat) : ℝ :=
-  match vs[i]? with
-  | some v => V3.dot d v
-  | none => 0
-
-theorem proj_eq {d : V} {vs : Array V} {i : Nat} (h : i < vs.size) : proj d vs i = V3.dot d vs[i] := by
-  unfold proj; rw [Array.getElem?_eq_getElem h]
-
-theorem projLen_eq {d : V} {vs : Array V} {c b : Nat} (hc : c < vs.size) (hb : b < vs.size) :
-    projLen d vs c b = .ok (proj d vs c - proj d vs b) := by
-  unfold projLen
-  rw [Array.getElem?_eq_getElem hc, Array.getElem?_eq_getElem hb, proj_eq hc, proj_eq hb]
-  simp only [V3.dot_def, V3.sub_x, V3.sub_y, V3.sub_z]
-  congr 1; ring
-
-/-! ### one `for` loop -/
-
-theorem climbFold_spec (τ : ℝ) (hτ : 0 ≤ τ) (d : V) (vs : Array V) :
-    ∀ (cs : List Nat) (b : Nat) (mv : Bool), (∀ c ∈ cs, c < vs.size) → b < vs.size →
-      ∃ b' mv', climbFold τ d vs cs (b, mv) = .ok (b', mv') ∧ (b' = b ∨ b' ∈ cs) ∧
-        proj d vs b ≤ proj d vs b' ∧
-        (mv' = false → mv = false ∧ b' = b ∧ ∀ c ∈ cs, proj d vs c - proj d vs b ≤ τ) ∧
-        (mv' = true → mv = true ∨ proj d vs b + τ < proj d vs b') := by
-  intro cs
-  induction cs with
-  | nil =>
-    intro b mv _ _
-    refine ⟨b, mv, rfl, Or.inl rfl, le_refl _, ?_, ?_⟩
-    · intro h; exact ⟨h, rfl, by simp⟩
-    · intro h; exact Or.inl h
-  | cons c cs ih =>
-    intro b mv hcs hb
-    have hc : c < vs.size := hcs c List.mem_cons_self
-    have hcs' : ∀ c ∈ cs, c < vs.size := fun x hx => hcs x (List.mem_cons_of_mem _ hx)
-    simp only [climbFold]
-    rw [projLen_eq hc hb]
-    dsimp only
-    split_ifs with hlt
-    · obtain ⟨b', mv', heq, hmem, hle, hc', hd'⟩ := ih c true hcs' hc
-      refine ⟨b', mv', heq, ?_, by linarith, ?_, ?_⟩
-      · rcases hmem with h | h
-        · exact Or.inr (h ▸ List.mem_cons_self)
-        · exact Or.inr (List.mem_cons_of_mem _ h)
-      · intro h; exact absurd (hc' h).1 (by simp)
-      · intro _; exact Or.inr (by linarith)
-    · obtain ⟨b', mv', heq, hmem, hle, hc', hd'⟩ := ih b mv hcs' hb
-      refine ⟨b', mv', heq, ?_, hle, ?_, hd'⟩
-      · rcases hmem with h | h
-        · exact Or.inl h
-        · exact Or.inr (List.mem_cons_of_mem _ h)
-      · intro h
-        obtain ⟨h1, h2, h3⟩ := hc' h
-        refine ⟨h1, h2, ?_⟩
-        intro x hx
-        rcases List.mem_cons.mp hx with rfl | hx
-        · exact not_lt.mp hlt
-        · exact h3 x hx
-
-/-! ### well-formed mesh data -/
+/-! ### well-formed mesh data (combinatorial; independent of the scalar type) -/
 
 /-- `i` is a vertex index with an entry in `connections` -/
-def Valid (m : MeshData ℝ) (i : Nat) : Prop :=
+def Valid {α : Type} (m : MeshData α) (i : Nat) : Prop :=
   i < m.verts.size ∧ ∃ l, connLookup m.conn i = .ok l
 
 /-- the precondition under which hill climbing raises neither KeyError nor IndexError:
 shortcut vertices and listed neighbours are vertex indices that occur in a triangle -/
-structure MeshWF (m : MeshData ℝ) : Prop where
+structure MeshWF {α : Type} (m : MeshData α) : Prop where
   shortcuts : ∀ s ∈ m.shortcuts, Valid m s
   nbrs : ∀ k l, connLookup m.conn k = .ok l → ∀ c ∈ l, Valid m c
 
@@ -102,8 +53,13 @@ theorem lookup_mem {conn : List (Nat × List Nat)} {i : Nat} {l : List Nat}
       rw [this] at h
       exact List.mem_cons_of_mem _ (ih h)
 
-/-- soundness of the decidable check the driver runs on every mesh -/
-theorem wfCheck_sound (m : MeshData ℝ) (h : m.wfCheck = true) : MeshWF m := by
+/-! ### termination in any arithmetic -/
+
+section AnyArith
+scalar_variables
+
+/-- soundness of the decidable check the driver runs on every mesh (any scalar type) -/
+theorem wfCheck_sound (m : MeshData α) (h : m.wfCheck = true) : MeshWF m := by
   unfold MeshData.wfCheck at h
   simp only [Bool.and_eq_true, List.all_eq_true, decide_eq_true_eq] at h
   obtain ⟨h1, h2⟩ := h
@@ -117,76 +73,283 @@ theorem wfCheck_sound (m : MeshData ℝ) (h : m.wfCheck = true) : MeshWF m := by
     have := h2 (k, l) (lookup_mem (connLookup_ok.mp hl))
     exact key c (this.2 c hc)
 
-/-! ### the `while` loop: termination and local optimality -/
+theorem vertexProj_eq {d : V3 α} {vs : Array (V3 α)} {c : Nat} (hc : c < vs.size) :
+    vertexProj d vs c = .ok (projAt d vs c) := by
+  unfold vertexProj projAt
+  rw [Array.getElem?_eq_getElem hc]
 
-/-- no neighbour of `r` is better than `r` by more than the threshold -/
-def LocalOpt (τ : ℝ) (d : V) (m : MeshData ℝ) (r : Nat) : Prop :=
-  ∀ l, connLookup m.conn r = .ok l → ∀ c ∈ l, proj d m.verts c - proj d m.verts r ≤ τ
+/-- a strict order on vertex indices that contains the acceptance test of the climb:
+whenever candidate `c` is accepted over the current best `b` (`τ < proj c - proj b`, with the
+ONE computed projection of each vertex), `b ≺ c`. This is the only thing termination needs;
+nothing is assumed about `+`, `*`, `-` or `<` themselves. -/
+structure AcceptOrder (τ : α) (d : V3 α) (vs : Array (V3 α)) (R : Nat → Nat → Prop) : Prop where
+  irrefl : ∀ i, ¬ R i i
+  trans : ∀ i j k, R i j → R j k → R i k
+  accept : ∀ b c, b < vs.size → c < vs.size → τ < projAt d vs c - projAt d vs b → R b c
 
-/-- number of vertices strictly better than `b`: decreases with every move -/
-noncomputable def mu (d : V) (vs : Array V) (b : Nat) : Nat :=
-  ((Finset.range vs.size).filter (fun i => proj d vs b < proj d vs i)).card
+open Classical in
+/-- number of vertices strictly above `b` in the order: decreases with every accepted move -/
+noncomputable def muR (R : Nat → Nat → Prop) (n b : Nat) : Nat :=
+  ((Finset.range n).filter (fun i => R b i)).card
 
-theorem mu_lt {d : V} {vs : Array V} {b b' : Nat} (hb' : b' < vs.size)
-    (h : proj d vs b < proj d vs b') : mu d vs b' < mu d vs b := by
-  unfold mu
+open Classical in
+theorem muR_lt {R : Nat → Nat → Prop} (hirr : ∀ i, ¬ R i i) (htr : ∀ i j k, R i j → R j k → R i k)
+    {n b b' : Nat} (hb' : b' < n) (h : R b b') : muR R n b' < muR R n b := by
+  unfold muR
   apply Finset.card_lt_card
   rw [Finset.ssubset_iff_of_subset]
   · refine ⟨b', ?_, ?_⟩
     · simp only [Finset.mem_filter, Finset.mem_range]; exact ⟨hb', h⟩
-    · simp only [Finset.mem_filter, Finset.mem_range, lt_self_iff_false, and_false, not_false_eq_true]
+    · simp only [Finset.mem_filter, Finset.mem_range, not_and]; intro _; exact hirr b'
   · intro i hi
     simp only [Finset.mem_filter, Finset.mem_range] at hi ⊢
-    exact ⟨hi.1, lt_trans h hi.2⟩
+    exact ⟨hi.1, htr _ _ _ h hi.2⟩
 
-theorem mu_lt_size {d : V} {vs : Array V} {b : Nat} (hb : b < vs.size) : mu d vs b < vs.size := by
-  unfold mu
-  have : ((Finset.range vs.size).filter (fun i => proj d vs b < proj d vs i)) ⊂ Finset.range vs.size := by
+open Classical in
+theorem muR_lt_size {R : Nat → Nat → Prop} (hirr : ∀ i, ¬ R i i) {n b : Nat} (hb : b < n) :
+    muR R n b < n := by
+  unfold muR
+  have : ((Finset.range n).filter (fun i => R b i)) ⊂ Finset.range n := by
     rw [Finset.ssubset_iff_of_subset (Finset.filter_subset _ _)]
-    exact ⟨b, Finset.mem_range.mpr hb, by simp⟩
+    exact ⟨b, Finset.mem_range.mpr hb, by simp [hirr b]⟩
   simpa using Finset.card_lt_card this
 
-theorem hillLoop_spec (τ : ℝ) (hτ : 0 ≤ τ) (d : V) (m : MeshData ℝ) (hwf : MeshWF m) :
-    ∀ (fuel b passes : Nat), Valid m b → mu d m.verts b < fuel →
-      ∃ r k, hillLoop τ d m fuel b passes = .ok (r, k) ∧ Valid m r ∧ LocalOpt τ d m r ∧
-        proj d m.verts b ≤ proj d m.verts r := by
+/-- loop invariant: `best_idx` is a vertex index and `best_projection` is its computed projection -/
+def StInv (d : V3 α) (vs : Array (V3 α)) (st : ClimbSt α) : Prop :=
+  st.best < vs.size ∧ st.bestProj = projAt d vs st.best
+
+/-- one `for` loop, any arithmetic: succeeds on in-range candidates, keeps the invariant, the
+potential `moves + #(vertices above best)` does not increase, and the `moved` flag means what it
+says (not moved: nothing changed and no candidate passed the test; moved: strictly up in the
+order) -/
+theorem climbFold_any (τ : α) (d : V3 α) (vs : Array (V3 α)) (R : Nat → Nat → Prop)
+    (hR : AcceptOrder τ d vs R) :
+    ∀ (cs : List Nat) (st : ClimbSt α), (∀ c ∈ cs, c < vs.size) → StInv d vs st →
+      ∃ st', climbFold τ d vs cs st = .ok st' ∧ StInv d vs st' ∧
+        (st'.best = st.best ∨ st'.best ∈ cs) ∧
+        (st'.best = st.best ∨ R st.best st'.best) ∧
+        st'.moves + muR R vs.size st'.best ≤ st.moves + muR R vs.size st.best ∧
+        st.moves ≤ st'.moves ∧
+        (st'.moved = false → st.moved = false ∧ st' = st ∧
+          ∀ c ∈ cs, ¬ (τ < projAt d vs c - st.bestProj)) ∧
+        (st'.moved = true → st.moved = true ∨ (R st.best st'.best ∧ st.moves + 1 ≤ st'.moves)) := by
+  intro cs
+  induction cs with
+  | nil =>
+    intro st _ hinv
+    refine ⟨st, rfl, hinv, Or.inl rfl, Or.inl rfl, le_refl _, le_refl _, ?_, ?_⟩
+    · intro h; exact ⟨h, rfl, by simp⟩
+    · intro h; exact Or.inl h
+  | cons c cs ih =>
+    intro st hcs hinv
+    have hc : c < vs.size := hcs c List.mem_cons_self
+    have hcs' : ∀ c ∈ cs, c < vs.size := fun x hx => hcs x (List.mem_cons_of_mem _ hx)
+    simp only [climbFold]
+    rw [vertexProj_eq hc]
+    dsimp only
+    split_ifs with hlt
+    · have hRc : R st.best c := by
+        have := hlt
+        rw [hinv.2] at this
+        exact hR.accept st.best c hinv.1 hc this
+      obtain ⟨st', heq, hinv', hmem, hrt, hpot, hmv, hc', hd'⟩ :=
+        ih ⟨c, projAt d vs c, true, st.moves + 1⟩ hcs' ⟨hc, rfl⟩
+      have hR' : R st.best st'.best := by
+        rcases hrt with h | h
+        · rw [h]; exact hRc
+        · exact hR.trans _ _ _ hRc h
+      have hmu := muR_lt hR.irrefl hR.trans hc hRc
+      refine ⟨st', heq, hinv', ?_, Or.inr hR', ?_, ?_, ?_, ?_⟩
+      · rcases hmem with h | h
+        · exact Or.inr (by rw [h]; exact List.mem_cons_self)
+        · exact Or.inr (List.mem_cons_of_mem _ h)
+      · simp only at hpot; omega
+      · simp only at hmv; omega
+      · intro h; exact absurd (hc' h).1 (by simp)
+      · intro _; exact Or.inr ⟨hR', by simp only at hmv; omega⟩
+    · obtain ⟨st', heq, hinv', hmem, hrt, hpot, hmv, hc', hd'⟩ := ih st hcs' hinv
+      refine ⟨st', heq, hinv', ?_, hrt, hpot, hmv, ?_, hd'⟩
+      · rcases hmem with h | h
+        · exact Or.inl h
+        · exact Or.inr (List.mem_cons_of_mem _ h)
+      · intro h
+        obtain ⟨h1, h2, h3⟩ := hc' h
+        refine ⟨h1, h2, ?_⟩
+        intro x hx
+        rcases List.mem_cons.mp hx with rfl | hx
+        · exact hlt
+        · exact h3 x hx
+
+/-- the `while` loop, any arithmetic: whenever the fuel exceeds the number of vertices above the
+current best, the loop returns (never `fuel`, `KeyError`, `IndexError`), at a vertex none of
+whose neighbours passes the acceptance test; the potential does not increase and the number of
+passes is at most the number of moves made in the loop plus one -/
+theorem hillLoop_any (τ : α) (d : V3 α) (m : MeshData α) (hwf : MeshWF m) (R : Nat → Nat → Prop)
+    (hR : AcceptOrder τ d m.verts R) :
+    ∀ (fuel : Nat) (st : ClimbSt α) (passes : Nat), StInv d m.verts st → Valid m st.best →
+      muR R m.verts.size st.best < fuel →
+      ∃ st' k, hillLoop τ d m fuel st passes = .ok (st', k) ∧ StInv d m.verts st' ∧
+        Valid m st'.best ∧ (st'.best = st.best ∨ R st.best st'.best) ∧
+        st'.moves + muR R m.verts.size st'.best ≤ st.moves + muR R m.verts.size st.best ∧
+        st.moves ≤ st'.moves ∧ k + st.moves ≤ passes + st'.moves + 1 ∧
+        (∀ l, connLookup m.conn st'.best = .ok l →
+          ∀ c ∈ l, ¬ (τ < projAt d m.verts c - projAt d m.verts st'.best)) := by
   intro fuel
   induction fuel with
-  | zero => intro b _ _ h; exact absurd h (Nat.not_lt_zero _)
+  | zero => intro st _ _ _ h; exact absurd h (Nat.not_lt_zero _)
   | succ fuel ih =>
-    intro b passes hv hmu
+    intro st passes hinv hv hmu
     obtain ⟨hb, l, hl⟩ := hv
-    have hnb := hwf.nbrs b l hl
-    obtain ⟨b', mv', heq, hmem, hle, hc', hd'⟩ :=
-      climbFold_spec τ hτ d m.verts l b false (fun c hc => (hnb c hc).1) hb
+    have hnb := hwf.nbrs st.best l hl
+    obtain ⟨st', heq, hinv', hmem, hrt, hpot, hmv, hc', hd'⟩ :=
+      climbFold_any τ d m.verts R hR l { st with moved := false } (fun c hc => (hnb c hc).1) hinv
     simp only [hillLoop]
     rw [hl]
     dsimp only
     rw [heq]
     dsimp only
-    cases mv' with
+    have hvb' : Valid m st'.best := by
+      rcases hmem with h | h
+      · rw [h]; exact ⟨hb, l, hl⟩
+      · exact hnb _ h
+    cases hm : st'.moved with
     | true =>
-      have hlt : proj d m.verts b < proj d m.verts b' := by
-        rcases hd' rfl with h | h
+      have hRb : R st.best st'.best ∧ st.moves + 1 ≤ st'.moves := by
+        rcases hd' hm with h | h
         · exact absurd h (by simp)
-        · linarith
-      have hvb' : Valid m b' := by
-        rcases hmem with h | h
-        · rw [h]; exact ⟨hb, l, hl⟩
-        · exact hnb b' h
-      have hmu' : mu d m.verts b' < fuel :=
-        lt_of_lt_of_le (mu_lt hvb'.1 hlt) (Nat.lt_succ_iff.mp hmu)
-      obtain ⟨r, k, h1, h2, h3, h4⟩ := ih b' (passes + 1) hvb' hmu'
-      exact ⟨r, k, by simpa using h1, h2, h3, le_trans hle h4⟩
+        · exact h
+      obtain ⟨hRb, hmv1⟩ := hRb
+      have hmu' : muR R m.verts.size st'.best < fuel :=
+        lt_of_lt_of_le (muR_lt hR.irrefl hR.trans hvb'.1 hRb) (Nat.lt_succ_iff.mp hmu)
+      obtain ⟨r, k, h1, h2, h3, h4, h5, h6, h7, h8⟩ := ih st' (passes + 1) hinv' hvb' hmu'
+      have hstrict := muR_lt hR.irrefl hR.trans hvb'.1 hRb
+      simp only at hpot hmv
+      refine ⟨r, k, by simpa using h1, h2, h3, ?_, by omega, by omega, by omega, h8⟩
+      rcases h4 with h | h
+      · rw [h]; exact Or.inr hRb
+      · exact Or.inr (hR.trans _ _ _ hRb h)
     | false =>
-      obtain ⟨_, hbb, hopt⟩ := hc' rfl
-      refine ⟨b', passes + 1, by simp, ?_, ?_, hle⟩
-      · rw [hbb]; exact ⟨hb, l, hl⟩
-      · intro l' hl' c hc
-        rw [hbb] at hl' ⊢
-        rw [hl] at hl'
-        cases hl'
-        exact hopt c hc
+      obtain ⟨_, hst, hopt⟩ := hc' hm
+      refine ⟨st', passes + 1, by simp, hinv', hvb', hrt, hpot, hmv, by simp only at hmv; omega, ?_⟩
+      intro l' hl' c hc
+      have hb' : st'.best = st.best := by rw [hst]
+      rw [hb'] at hl' ⊢
+      rw [hl] at hl'
+      cases hl'
+      have := hopt c hc
+      simp only at this
+      rw [hinv.2] at this
+      exact this
+
+/-- **Termination of the repaired climb in ANY arithmetic.** For every scalar type `α` and every
+instance of `+ - * / <` on it (no law assumed), every threshold, direction, well-formed mesh
+data and valid start index: if the acceptance test `τ < proj c - proj b` on the ONE computed
+projection per vertex is contained in some strict order `R` on vertex indices, then for every
+fuel ≥ #vertices the climb returns — no `fuel`, `KeyError` or `IndexError` — with at most
+#vertices − 1 accepted moves (shortcut pass included), at most #vertices passes of the `while`
+loop, at a valid vertex none of whose neighbours passes the acceptance test, and that vertex is
+the start or above it in the order. -/
+theorem hillClimbF_terminates_anyArith (τ : α) (d : V3 α) (m : MeshData α) (hwf : MeshWF m)
+    (R : Nat → Nat → Prop) (hR : AcceptOrder τ d m.verts R) (start : Nat) (hs : Valid m start)
+    (fuel : Nat) (hfuel : m.verts.size ≤ fuel) :
+    ∃ r br moves, hillClimbF τ d start m fuel = .ok (r, br, moves) ∧ Valid m r ∧
+      moves + 1 ≤ m.verts.size ∧ br ≤ 2 * m.verts.size + 1 ∧ (r = start ∨ R start r) ∧
+      (∀ l, connLookup m.conn r = .ok l →
+        ∀ c ∈ l, ¬ (τ < projAt d m.verts c - projAt d m.verts r)) := by
+  obtain ⟨st0, heq, hinv0, hmem, hrt0, hpot0, hmv0, _, _⟩ :=
+    climbFold_any τ d m.verts R hR m.shortcuts ⟨start, projAt d m.verts start, false, 0⟩
+      (fun c hc => (hwf.shortcuts c hc).1) ⟨hs.1, rfl⟩
+  have hv0 : Valid m st0.best := by
+    rcases hmem with h | h
+    · rw [h]; exact hs
+    · exact hwf.shortcuts _ h
+  have hmu0 := muR_lt_size (R := R) hR.irrefl hv0.1
+  obtain ⟨st, k, h1, h2, h3, h4, h5, h6, h7, h8⟩ :=
+    hillLoop_any τ d m hwf R hR fuel st0 0 hinv0 hv0 (lt_of_lt_of_le hmu0 hfuel)
+  have hmus := muR_lt_size (R := R) hR.irrefl hs.1
+  simp only at hpot0 hmv0 hrt0
+  refine ⟨st.best, 2 * k + (if st0.moved then 1 else 0), st.moves, ?_, h3, by omega, ?_, ?_, h8⟩
+  · unfold hillClimbF
+    rw [vertexProj_eq hs.1]
+    dsimp only
+    rw [heq]
+    dsimp only
+    rw [h1]
+  · have : (if st0.moved = true then 1 else 0) ≤ 1 := by split_ifs <;> omega
+    omega
+  · rcases hrt0 with h0 | h0
+    · rcases h4 with h | h
+      · exact Or.inl (by rw [h, h0])
+      · exact Or.inr (by rw [h0] at h; exact h)
+    · rcases h4 with h | h
+      · exact Or.inr (by rw [h]; exact h0)
+      · exact Or.inr (hR.trans _ _ _ h0 h)
+
+/-- **Instance: every `<` that is a strict order on the scalars, with a subtraction that cannot
+make a non-larger value look larger by more than `τ`** — the weakest honest contract of IEEE-754
+arithmetic for this loop: `<` on doubles is irreflexive and transitive (NaN compares false with
+everything), and for `τ ≥ 0` the correctly rounded `a - b` exceeds `τ` only if `b < a` (if `a - b`
+is NaN the test is false and no move is accepted). Nothing is assumed about `+` and `*`, i.e. about
+how `dot` rounds: each vertex simply has one computed projection. -/
+theorem hillClimbF_terminates_strictOrder (τ : α) (d : V3 α) (m : MeshData α) (hwf : MeshWF m)
+    (lt_irrefl : ∀ a : α, ¬ a < a) (lt_trans : ∀ a b c : α, a < b → b < c → a < c)
+    (sub_pos : ∀ a b : α, τ < a - b → b < a)
+    (start : Nat) (hs : Valid m start) (fuel : Nat) (hfuel : m.verts.size ≤ fuel) :
+    ∃ r br moves, hillClimbF τ d start m fuel = .ok (r, br, moves) ∧ Valid m r ∧
+      moves + 1 ≤ m.verts.size ∧ br ≤ 2 * m.verts.size + 1 ∧
+      (r = start ∨ projAt d m.verts start < projAt d m.verts r) ∧
+      (∀ l, connLookup m.conn r = .ok l →
+        ∀ c ∈ l, ¬ (τ < projAt d m.verts c - projAt d m.verts r)) :=
+  hillClimbF_terminates_anyArith τ d m hwf (fun b c => projAt d m.verts b < projAt d m.verts c)
+    ⟨fun _ => lt_irrefl _, fun _ _ _ h1 h2 => lt_trans _ _ _ h1 h2, fun _ _ _ _ h => sub_pos _ _ h⟩
+    start hs fuel hfuel
+
+/-- the same for the function the colliders call (fuel = number of vertices): never `fuel` -/
+theorem hillClimbT_terminates_strictOrder (τ : α) (d : V3 α) (m : MeshData α) (hwf : MeshWF m)
+    (lt_irrefl : ∀ a : α, ¬ a < a) (lt_trans : ∀ a b c : α, a < b → b < c → a < c)
+    (sub_pos : ∀ a b : α, τ < a - b → b < a) (start : Nat) (hs : Valid m start) :
+    ∃ r br, hillClimbT τ d start m = .ok (r, br) ∧ Valid m r := by
+  obtain ⟨r, br, mv, h, hv, _⟩ := hillClimbF_terminates_strictOrder τ d m hwf lt_irrefl lt_trans
+    sub_pos start hs m.verts.size (le_refl _)
+  exact ⟨r, br, by unfold hillClimbT; rw [h], hv⟩
+
+end AnyArith
+
+/-! ### exact reals -/
+
+/-- projection `d · vertices[i]` (0 outside the array; never used there) -/
+noncomputable def proj (d : V) (vs : Array V) (i : Nat) : ℝ :=
+  match vs[i]? with
+  | some v => V3.dot d v
+  | none => 0
+
+theorem proj_eq {d : V} {vs : Array V} {i : Nat} (h : i < vs.size) : proj d vs i = V3.dot d vs[i] := by
+  unfold proj; rw [Array.getElem?_eq_getElem h]
+
+theorem proj_eq_projAt (d : V) (vs : Array V) (i : Nat) : proj d vs i = projAt d vs i := by
+  unfold proj projAt; cases vs[i]? <;> rfl
+
+/-- no neighbour of `r` is better than `r` by more than the threshold -/
+def LocalOpt (τ : ℝ) (d : V) (m : MeshData ℝ) (r : Nat) : Prop :=
+  ∀ l, connLookup m.conn r = .ok l → ∀ c ∈ l, proj d m.verts c - proj d m.verts r ≤ τ
+
+/-- ℝ with a non-negative threshold is an instance of the arithmetic contract -/
+theorem hillClimbF_spec (τ : ℝ) (hτ : 0 ≤ τ) (d : V) (m : MeshData ℝ) (hwf : MeshWF m)
+    (start : Nat) (hs : Valid m start) (fuel : Nat) (hfuel : m.verts.size ≤ fuel) :
+    ∃ r br moves, hillClimbF τ d start m fuel = .ok (r, br, moves) ∧ Valid m r ∧
+      moves + 1 ≤ m.verts.size ∧ LocalOpt τ d m r ∧ proj d m.verts start ≤ proj d m.verts r := by
+  obtain ⟨r, br, mv, h, hv, hmv, _, hup, hloc⟩ :=
+    hillClimbF_terminates_strictOrder τ d m hwf (fun a => lt_irrefl a)
+      (fun _ _ _ h1 h2 => lt_trans h1 h2) (fun a b h => by linarith) start hs fuel hfuel
+  refine ⟨r, br, mv, h, hv, hmv, ?_, ?_⟩
+  · intro l hl c hc
+    have := hloc l hl c hc
+    rw [proj_eq_projAt, proj_eq_projAt]
+    exact not_lt.mp this
+  · rw [proj_eq_projAt, proj_eq_projAt]
+    rcases hup with h | h
+    · rw [h]
+    · exact le_of_lt h
 
 /-- **termination + local optimality** of `hill_climb_mesh_extreme` for every start index:
 with fuel = number of vertices the loop never runs out of fuel, raises no KeyError/IndexError on
@@ -195,19 +358,9 @@ theorem hillClimbT_spec (τ : ℝ) (hτ : 0 ≤ τ) (d : V) (m : MeshData ℝ) (
     (start : Nat) (hs : Valid m start) :
     ∃ r br, hillClimbT τ d start m = .ok (r, br) ∧ Valid m r ∧ LocalOpt τ d m r ∧
       proj d m.verts start ≤ proj d m.verts r := by
-  obtain ⟨b0, sc, heq, hmem, hle, _, _⟩ :=
-    climbFold_spec τ hτ d m.verts m.shortcuts start false (fun c hc => (hwf.shortcuts c hc).1) hs.1
-  have hv0 : Valid m b0 := by
-    rcases hmem with h | h
-    · rw [h]; exact hs
-    · exact hwf.shortcuts b0 h
-  obtain ⟨r, k, h1, h2, h3, h4⟩ :=
-    hillLoop_spec τ hτ d m hwf m.verts.size b0 0 hv0 (mu_lt_size hv0.1)
-  unfold hillClimbT
-  rw [heq]
-  dsimp only
-  rw [h1]
-  exact ⟨r, _, rfl, h2, h3, le_trans hle h4⟩
+  obtain ⟨r, br, mv, h, hv, _, h3, h4⟩ :=
+    hillClimbF_spec τ hτ d m hwf start hs m.verts.size (le_refl _)
+  exact ⟨r, br, by unfold hillClimbT; rw [h], hv, h3, h4⟩
 
 theorem eps_nonneg : (0 : ℝ) ≤ (Gen.mesh__PROJECTION_LENGTH_EPSILON : ℝ) := by
   unfold Gen.mesh__PROJECTION_LENGTH_EPSILON; norm_num
@@ -228,9 +381,6 @@ theorem localOpt_global {τ τ' : ℝ} {d : V} {m : MeshData ℝ} (hu : Unimodal
   by_contra hc
   obtain ⟨l, c, hl, hcl, hlt⟩ := hu r hv ⟨i, hi, not_le.mp hc⟩
   exact absurd (ho l hl c hcl) (not_le.mpr hlt)
-
-theorem proj_eq_projAt (d : V) (vs : Array V) (i : Nat) : proj d vs i = projAt d vs i := by
-  unfold proj projAt; cases vs[i]? <;> rfl
 
 /-- soundness of the decidable check the driver evaluates (exactly, at `Rat`, on lattice meshes) -/
 theorem unimodalCheck_sound (τ τ' : ℝ) (d : V) (m : MeshData ℝ)
@@ -254,11 +404,14 @@ theorem unimodalCheck_sound (τ τ' : ℝ) (d : V) (m : MeshData ℝ)
 
 /-- the exact failure: if the vertex selected by the shortcut loop occurs in no triangle (has no
 entry in `connections`) the call raises `KeyError` (as does the implementation) -/
-theorem hillClimb_keyError (τ : ℝ) (d : V) (m : MeshData ℝ) (start b0 : Nat) (sc : Bool)
-    (hsc : climbFold τ d m.verts m.shortcuts (start, false) = .ok (b0, sc))
-    (hkey : m.conn.lookup b0 = none) (hn : 0 < m.verts.size) :
+theorem hillClimb_keyError (τ : ℝ) (d : V) (m : MeshData ℝ) (start : Nat) (bp0 : ℝ)
+    (st0 : ClimbSt ℝ) (hp : vertexProj d m.verts start = .ok bp0)
+    (hsc : climbFold τ d m.verts m.shortcuts ⟨start, bp0, false, 0⟩ = .ok st0)
+    (hkey : m.conn.lookup st0.best = none) (hn : 0 < m.verts.size) :
     hillClimbT τ d start m = .error .keyError := by
-  unfold hillClimbT
+  unfold hillClimbT hillClimbF
+  rw [hp]
+  dsimp only
   rw [hsc]
   dsimp only
   obtain ⟨n, hn'⟩ := Nat.exists_eq_succ_of_ne_zero (Nat.pos_iff_ne_zero.mp hn)
